@@ -533,6 +533,13 @@ def check_c30(A: Analysis, col: Collector):
                 stored = {t.attr for a_ in walk_own(wc.node) if isinstance(a_, ast.Assign) for t in a_.targets if isinstance(t, ast.Attribute) and dotted(t.value) == "self"}
                 if any(a_.split(".")[-1] in stored for a_ in roots.attrs):
                     memo_returns.append(n)
+        # an attribute of the instance that the function both stores and reads back (plain or through getattr)
+        stored_ = {t.attr for a_ in walk_own(wc.node) if isinstance(a_, ast.Assign) for t in a_.targets if isinstance(t, ast.Attribute) and dotted(t.value) == "self"}
+        read_ = {a_.attr for a_ in walk_own(wc.node) if isinstance(a_, ast.Attribute) and isinstance(a_.ctx, ast.Load) and dotted(a_.value) == "self"} | {c_.args[1].value for c_ in A.calls(wc) if dotted(c_.func) == "getattr" and len(c_.args) >= 2 and norm(c_.args[0]) == "self" and isinstance(c_.args[1], ast.Constant)}
+        if not memo_returns and (stored_ & read_):
+            rets_ = [n for n in walk_own(wc.node) if isinstance(n, ast.Return) and n.value is not None and any(isinstance(p_, ast.If) for p_ in parents(n))]
+            if rets_:
+                memo_returns.append(rets_[0])
     if not memo_returns:
         col.ok("C30.task-memo", "WorkflowTask.construct returns no unkeyed per-instance memo (construction caching is left to Workflow.construct's keyed cache)", A.loc(wc.node))
     elif keyed or invalidates:
